@@ -83,6 +83,15 @@ func main() {
 	case "callees":
 		must(V.load("./x/fundraising/types", "./x/fundraising/keeper", "./x/fundraising/module"))
 		cmdCallees(V, pos)
+	case "ssa":
+		must(V.load("./x/fundraising/types", "./x/fundraising/keeper", "./x/fundraising/module"))
+		for _, k := range V.sortedFnKeys() {
+			for _, pt := range pos {
+				if strings.Contains(k, pt) {
+					V.fnByKey[k].WriteTo(os.Stdout)
+				}
+			}
+		}
 	case "list":
 		must(V.loadAll())
 		cmdList(V)
